@@ -319,8 +319,9 @@ def judge(cx, kind, ver, r, s, igns, simv, chv, sim_dbpm, ch_dbpm, route=0, none
                 f"configuration: {describe(kind, ver, r, s, 0)}; simfile {sim_pairs!r}; chart {ch_pairs!r}"
             )
 
-    # ---- displayed BPM (only where the chosen source has a non-empty BPMS: the property's quantifier)
-    if src.get("BPMS"):
+    # ---- displayed BPM (only where the chosen source has a non-empty BPMS: the property's quantifier; a blank-only
+    # BPMS holds no BPM at all and is left out as well)
+    if (src.get("BPMS") or "").strip():
         for ign in igns:
             if chart is None:
                 d = cx.displaybpm(sim, ignore_specified=bool(ign))
@@ -475,8 +476,8 @@ SEPS = [",", ",\n", ", "]
 
 
 def timing_list_from(x, lo, hi, max_events):
-    """Derive a 'beat=value' list from one drawn integer: 1..max_events events on strictly increasing quarter
-    beats, pairwise distinct values with three decimals in [lo, hi)."""
+    """Derive a 'beat=value' list from one drawn integer: 1..max_events events on non-decreasing quarter beats
+    (occasionally the same beat twice), pairwise distinct values with three decimals in [lo, hi)."""
     n = 1 + x % max_events
     x //= max_events
     sep = SEPS[x % 3]
@@ -485,9 +486,11 @@ def timing_list_from(x, lo, hi, max_events):
     k = -1
     seen = set()
     rows = []
-    for _ in range(n):
-        k += 1 + x % 97
-        x //= 97
+    for i in range(n):
+        # steps of 0 repeat the previous beat: a list may name one beat twice (every entry still counts)
+        step = x % 98
+        k += step if i else step % 97 + 1
+        x //= 98
         v = x % span
         x //= span
         while v in seen:
@@ -590,6 +593,10 @@ def s_one(draw):
     for k in TP:
         if k not in chart:
             chart[k] = CH_FIXED[k]
+    # a value made of blanks / line breaks only is still a non-empty value (what '#STOPS:\n;' loads as)
+    if draw(st.integers(0, 7)) == 0:
+        for k in draw(st.lists(st.sampled_from(TP), min_size=1, max_size=11, unique=True)):
+            chart[k] = draw(st.sampled_from([" ", "\n", " \n ", "\t"]))
     sa = draw(st.integers(0, 63))
     sim_absent = [k for i, k in enumerate(["BPMS", "STOPS", "DELAYS", "WARPS"]) if sa < 16 and (sa >> i) & 1]
     return {
